@@ -145,6 +145,8 @@ pub enum Event {
         kind: OpKind,
     },
     Poll(TaskId),
+    Hold(TaskId),
+    Release(TaskId),
     Drop(DropTarget),
     Stream(u64),
     Clone(u64, u64),
@@ -392,6 +394,14 @@ pub fn parse_event(line: &str) -> Option<Event> {
         },
         "POLL" => match args {
             [task] => Some(Event::Poll(parse_task(task)?)),
+            _ => None,
+        },
+        "HOLD" => match args {
+            [task] => Some(Event::Hold(parse_task(task)?)),
+            _ => None,
+        },
+        "RELEASE" => match args {
+            [task] => Some(Event::Release(parse_task(task)?)),
             _ => None,
         },
         "DROP" => match args {
